@@ -295,3 +295,22 @@ Proof. intros H.
     pose proof (pow2_ge1 (qb_ub c) ltac:(lia)).
     destruct (qb_kn c); destruct (qb_sym c); cbn [b2z] in *; lia.
 Qed.
+
+(* QuantizedRelu.convert_qkeras_quantizer (quantizer_impl.py:246-266): mode 4 only for (bits, integer) = (1, 1),
+   signed iff the relu is leaky *)
+Definition qt_of_qrelu (bits int : Z) (leaky : bool) : qt :=
+  QT (if (bits =? 1) && (int =? 1) then 4 else 0) bits int leaky false false None NQRelu None.
+Definition qr_leaky (c : qrelu) : bool := match qr_slope c with Some _ => true | None => false end.
+Theorem qrelu_value_fits_reported_type c a b : 0 <= qr_nsb c ->
+  (forall s, qr_slope c = Some s -> 0 <= s <= qr_nsb c) ->
+  let t := qt_of_qrelu (qr_bits c) (qr_int c) (qr_leaky c) in
+  frac_bits t = - qr_se c /\ code_ok t (qr_code c a b).
+Proof. intros H Hs t.
+  pose proof (qr_code_range c a b H Hs) as [L U].
+  unfold t, qt_of_qrelu, qr_leaky, frac_bits, code_ok, fix_lo, fix_hi, mag_bits. cbn [q_bits q_sgn q_int].
+  unfold qr_se, qr_lo, qr_hi, qr_nsb in *.
+  destruct (qr_slope c) as [s|] eqn:S; cbn [b2z] in *.
+  - specialize (Hs s eq_refl). split; [lia|].
+    assert (2 ^ (qr_bits c - 1 - s) <= 2 ^ (qr_bits c - 1)) by (apply Z.pow_le_mono_r; lia). lia.
+  - split; [lia|]. rewrite Z.sub_0_r in *. lia.
+Qed.
